@@ -30,18 +30,21 @@ def wf_cls() -> type:
 
 
 def execute(ex: Execution, n_runs: int, limit: int | None, second_instance: bool, hard_cancel: bool,
-            staggered: bool, resumed: bool = False) -> tuple[Any, list[Any]]:
+            staggered: bool, resumed: bool = False, named: bool = False, limit2: int | None = None, n2: int = 1) -> tuple[Any, list[Any]]:
+    """``named``: both instances are constructed with the same explicit workflow_name; ``limit2`` / ``n2``: the second instance's own
+    limit and number of runs"""
     with EngineExec(ex, RunConfig()) as e:
         rt = MonRuntime(BasicRuntime())
         cls = wf_cls()
 
-        def mk() -> Any:
-            wf = cls(timeout=None, runtime=rt, num_concurrent_runs=limit)
+        def mk(lim: int | None = limit) -> Any:
+            wf = cls(timeout=None, runtime=rt, num_concurrent_runs=lim, **({"workflow_name": "shared-name"} if named else {}))
             wf._active, wf._peak, wf._order = [], 0, []
             return wf
 
         wf1 = mk()
-        wf2 = mk() if second_instance else None
+        wf2 = mk(limit2 if limit2 is not None else limit) if second_instance else None
+        lim2 = limit2 if limit2 is not None else limit
         handlers: dict[str, Any] = {}
         cancelled: set[str] = set()
 
@@ -56,8 +59,9 @@ def execute(ex: Execution, n_runs: int, limit: int | None, second_instance: bool
         if staggered:
             for t in tags1[1:]:
                 scripts.append([Action(f"start {t}", (lambda t=t: start_run(wf1, t)))])
-        if wf2 is not None:
-            scripts.append([Action("start b0 (other instance)", lambda: start_run(wf2, "b0"))])
+        tags2 = [f"b{i}" for i in range(n2)] if wf2 is not None else []
+        for t in tags2:
+            scripts.append([Action(f"start {t} (other instance)", (lambda t=t: start_run(wf2, t)))])
         if hard_cancel:
             def do_cancel() -> None:
                 # hard-cancel a run that has not started executing yet (if any)
@@ -72,7 +76,7 @@ def execute(ex: Execution, n_runs: int, limit: int | None, second_instance: bool
                         return
 
             scripts.append([Action("hard-cancel a queued run", do_cancel)])
-        expected = set(tags1) | ({"b0"} if wf2 is not None else set())
+        expected = set(tags1) | set(tags2)
         if resumed:
             def do_resume() -> None:
                 # the context of a run that is executing its step is serialized and run again on the same instance (from
@@ -94,6 +98,8 @@ def execute(ex: Execution, n_runs: int, limit: int | None, second_instance: bool
         e.cfg.stop_when = lambda hh: all(t in handlers and handlers[t].is_done() for t in expected)
         v: list[Any] = []
         w = {"limit": limit, "hard_cancel": hard_cancel}
+        if named:
+            w["instances_share_an_explicit_name"] = True
         if resumed:
             w["with_resumed_run"] = True
 
@@ -101,9 +107,13 @@ def execute(ex: Execution, n_runs: int, limit: int | None, second_instance: bool
             if limit is not None and len(wf1._active) > limit:
                 v.append(("limit_exceeded", w, f"{len(wf1._active)} runs of one instance execute steps, limit {limit}"))
             # a separate instance is never delayed by the first: once started and drained it is executing
-            if wf2 is not None and "b0" in handlers and not handlers["b0"].is_done() and "b0" not in wf2._order:
-                v.append(("other_instance_delayed", w, f"run of a second instance waits although only runs of the "
-                                                        f"first instance are active ({sorted(wf1._active)})"))
+            if wf2 is not None and lim2 is not None and len(wf2._active) > lim2:
+                v.append(("limit_exceeded", {**w, "instance": "second", "limit": lim2}, f"{len(wf2._active)} runs of the second instance execute steps, limit {lim2}"))
+            if wf2 is not None:
+                waiting2 = [t for t in tags2 if t in handlers and not handlers[t].is_done() and t not in wf2._order]
+                if waiting2 and (lim2 is None or len(wf2._active) < lim2):
+                    v.append(("other_instance_delayed", w, f"run {waiting2[0]} of a second instance waits although that instance has a free slot "
+                                                            f"(its active runs {sorted(wf2._active)}; first instance {sorted(wf1._active)})"))
 
         e.cfg.on_quiescent.append(on_q)
         e.drive()
@@ -218,9 +228,14 @@ def programs(tier: str) -> list[Program]:
                           (lambda ex: execute(ex, 5, 2, False, False, True)), max_dev=6, min_concurrency=2))
         ps.append(Program("runs(n=6,limit=3,staggered=True)", {"n": 6, "limit": 3},
                           (lambda ex: execute(ex, 6, 3, False, False, True)), max_dev=5, min_concurrency=3))
+    # two instances under one explicit name with different limits: the wide one's runs are in flight first
+    ps.append(Program("two_instances_same_name(wide=3,narrow=1)", {"named": True, "limit": 3, "limit2": 1},
+                      lambda ex: execute(ex, 2, 3, True, False, False, named=True, limit2=1, n2=2), max_dev=(4 if q else 6)))
     ps.append(Program("runs(n=3,limit=None)", {}, lambda ex: execute(ex, 3, None, False, False, False), min_concurrency=3))
     for limit in (1, 2):
         ps.append(Program(f"two_instances(n=2,limit={limit})", {}, (lambda ex, limit=limit: execute(ex, 2, limit, True, False, False)),
+                          max_dev=(4 if q else None)))
+        ps.append(Program(f"two_instances_same_name(n=2,limit={limit})", {"named": True}, (lambda ex, limit=limit: execute(ex, 2, limit, True, False, False, named=True)),
                           max_dev=(4 if q else None)))
         ps.append(Program(f"hard_cancel(n=3,limit={limit})", {}, (lambda ex, limit=limit: execute(ex, 3, limit, False, True, False)),
                           max_dev=(4 if q else None)))
